@@ -47,6 +47,15 @@ fn main() {
         }
         return;
     }
+    if args[2] == "--rx" {
+        // debugging aid: frv C04 --rx <pattern> <text>: what the regex crate does
+        let (pat, text) = (&args[3], args.get(4).cloned().unwrap_or_default());
+        match regex::Regex::new(pat) {
+            Ok(r) => println!("regex crate: find={:?} captures={:?}", r.find(&text).map(|m| m.range()), r.captures(&text).map(|c| c.iter().map(|g| g.map(|m| m.range())).collect::<Vec<_>>())),
+            Err(e) => println!("regex crate: Err {}", e.to_string().lines().last().unwrap_or("")),
+        }
+        return;
+    }
     if args[2] == "--mkcase" {
         // frv <ID> --mkcase <pattern> <text> <pos> [extra-json]: print a replay file for a hand-written case
         let n = frv::conv::parse(&args[3]).expect("pattern parses and converts");
